@@ -209,6 +209,10 @@ theorem ttCheck_sound (a b : E) (h : ttCheck a b = true) (env : Env) :
   rw [← absE_envAssign, ← absE_envAssign, ← ha, ← hb, h1]
 
 
+theorem firstSome_res (a b : Option E) (x : E) :
+    firstSome a b = .res x ↔ a = some x ∨ (a = none ∧ b = some x) := by
+  cases a <;> cases b <;> simp [firstSome]
+
 /-! ### the CASE loop of simplify_conditionals -/
 
 theorem appRev_cons (x : E) (kept : List E) (rest : E) : appRev (x :: kept) rest = appRev kept (.cons x rest) := rfl
@@ -330,5 +334,686 @@ theorem endsCoalesce_ne_null (env : Env) (c : E) (h : endsCoalesce true c = true
   cases c <;> simp_all [endsCoalesce, isConstant, isConstLeaf, isNullE, eval]
   rename_i a
   cases a <;> simp_all [isConstLeaf, isNullE, eval, negVal, toInt?]
+
+/-! ### _flat_simplify: the queue algorithm preserves the fold of the operands
+    (any commutative monoid `op`/`u` on a carrier `α`, any semantics `sem : E → α`) -/
+section Flat
+variable {α : Type} (op : α → α → α) (u : α) (sem : E → α)
+
+def foldSem (xs : List E) : α := xs.foldr (fun y acc => op (sem y) acc) u
+
+variable (hassoc : ∀ a b c, op (op a b) c = op a (op b c)) (hcomm : ∀ a b, op a b = op b a) (hunit : ∀ a, op u a = a)
+include hassoc hunit in
+theorem foldSem_append (xs ys : List E) : foldSem op u sem (xs ++ ys) = op (foldSem op u sem xs) (foldSem op u sem ys) := by
+  induction xs with
+  | nil => simp [foldSem, hunit]
+  | cons x xs ih =>
+    have : foldSem op u sem (x :: xs ++ ys) = op (sem x) (foldSem op u sem (xs ++ ys)) := rfl
+    rw [this, ih, ← hassoc]; rfl
+
+include hassoc hcomm in
+theorem tryPair_sound (pair : E → E → Option E) (hp : ∀ a b r, pair a b = some r → op (sem a) (sem b) = sem r)
+    (a : E) : ∀ (q : List E) (r : E) (q' : List E), tryPair pair a q = some (r, q') →
+      op (sem a) (foldSem op u sem q) = op (sem r) (foldSem op u sem q') := by
+  intro q
+  induction q with
+  | nil => intro r q' h; simp [tryPair] at h
+  | cons b rest ih =>
+    intro r q' h
+    simp only [tryPair] at h
+    cases hpb : pair a b with
+    | some r0 =>
+      simp [hpb] at h
+      obtain ⟨h1, h2⟩ := h
+      subst h1; subst h2
+      have : foldSem op u sem (b :: rest) = op (sem b) (foldSem op u sem rest) := rfl
+      rw [this, ← hassoc, hp a b r0 hpb]
+    | none =>
+      simp only [hpb] at h
+      cases ht : tryPair pair a rest with
+      | none => simp [ht] at h
+      | some pr =>
+        obtain ⟨r1, rest'⟩ := pr
+        simp [ht] at h
+        obtain ⟨h1, h2⟩ := h
+        subst h1; subst h2
+        have e1 : foldSem op u sem (b :: rest) = op (sem b) (foldSem op u sem rest) := rfl
+        have e2 : foldSem op u sem (b :: rest') = op (sem b) (foldSem op u sem rest') := rfl
+        rw [e1, e2, ← hassoc, hcomm (sem a) (sem b), hassoc, ih r1 rest' ht, ← hassoc, hcomm (sem b) (sem r1), hassoc]
+
+include hassoc hcomm hunit in
+theorem flatLoop_sound (pair : E → E → Option E) (hp : ∀ a b r, pair a b = some r → op (sem a) (sem b) = sem r) :
+    ∀ (fuel : Nat) (q ops : List E), foldSem op u sem (flatLoop pair fuel q ops) = foldSem op u sem (ops.reverse ++ q) := by
+  intro fuel
+  induction fuel with
+  | zero => intro q ops; rfl
+  | succ fuel ih =>
+    intro q ops
+    cases q with
+    | nil => simp [flatLoop]
+    | cons a q =>
+      simp only [flatLoop]
+      cases ht : tryPair pair a q with
+      | none => simp only []; rw [ih]; simp
+      | some pr =>
+        obtain ⟨r, q'⟩ := pr
+        simp only []
+        rw [ih, foldSem_append op u sem hassoc hunit, foldSem_append op u sem hassoc hunit]
+        have e1 : foldSem op u sem (a :: q) = op (sem a) (foldSem op u sem q) := rfl
+        have e2 : foldSem op u sem (r :: q') = op (sem r) (foldSem op u sem q') := rfl
+        rw [e1, e2, tryPair_sound op u sem hassoc hcomm pair hp a q r q' ht]
+
+include hassoc hcomm hunit in
+theorem reduce_sound (mk : E → E → E) (hmk : ∀ a b, sem (mk a b) = op (sem a) (sem b)) :
+    ∀ (rest : List E) (x : E), sem (rest.foldl mk x) = op (sem x) (foldSem op u sem rest) := by
+  intro rest
+  induction rest with
+  | nil => intro x; simp [foldSem, hcomm (sem x) u, hunit]
+  | cons y ys ih =>
+    intro x
+    have : foldSem op u sem (y :: ys) = op (sem y) (foldSem op u sem ys) := rfl
+    rw [List.foldl_cons, ih, hmk, this, hassoc]
+
+include hassoc hcomm hunit in
+theorem foldSem_single (e : E) : foldSem op u sem [e] = sem e := by
+  have : foldSem op u sem [e] = op (sem e) u := rfl
+  rw [this, hcomm, hunit]
+
+include hassoc hcomm hunit in
+theorem flattenOps_sound (k : FK) (hmk : ∀ a b, sem (k.mk a b) = op (sem a) (sem b)) :
+    ∀ e, foldSem op u sem (flattenOps k e) = sem e := by
+  intro e
+  induction e <;> cases k <;>
+    simp only [flattenOps, foldSem_single op u sem hassoc hcomm hunit] <;>
+    (rename_i a b iha ihb
+     rw [foldSem_append op u sem hassoc hunit, iha, ihb]
+     exact (hmk a b).symm)
+
+include hassoc hcomm hunit in
+/-- `_flat_simplify` preserves the meaning of the connector / sum / product it is applied to -/
+theorem flatSimplify_sound (k : FK) (hmk : ∀ a b, sem (k.mk a b) = op (sem a) (sem b))
+    (pair : E → E → Option E) (hp : ∀ a b r, pair a b = some r → op (sem a) (sem b) = sem r) (gate : Bool) (e : E) :
+    sem (flatSimplify k pair gate e) = sem e := by
+  unfold flatSimplify
+  split; · rfl
+  simp only []
+  split; · rfl
+  split
+  · have hl := flatLoop_sound op u sem hassoc hcomm hunit pair hp (flattenOps k e).length (flattenOps k e) []
+    simp only [List.reverse_nil, List.nil_append] at hl
+    rw [flattenOps_sound op u sem hassoc hcomm hunit k hmk e] at hl
+    split
+    · rename_i x rest hops
+      rw [hops] at hl
+      rw [reduce_sound op u sem hassoc hcomm hunit k.mk hmk rest x, ← hl]; rfl
+    · rfl
+  · rfl
+end Flat
+
+/-! ### normalize.py: distributive_law -/
+theorem or3_and3_distrib (a b c : B3) : or3 a (and3 b c) = and3 (or3 a b) (or3 a c) := by
+  rcases a with _ | _ | _ <;> rcases b with _ | _ | _ <;> rcases c with _ | _ | _ <;> rfl
+theorem and3_or3_distrib (a b c : B3) : and3 a (or3 b c) = or3 (and3 a b) (and3 a c) := by
+  rcases a with _ | _ | _ <;> rcases b with _ | _ | _ <;> rcases c with _ | _ | _ <;> rfl
+
+/-- 3-valued meaning of a connector of the given polarity -/
+def conn3 (isAnd : Bool) : B3 → B3 → B3 := if isAnd then and3 else or3
+
+theorem conn3_comm (p : Bool) (a b : B3) : conn3 p a b = conn3 p b a := by
+  cases p
+  · exact or3_comm a b
+  · exact and3_comm a b
+theorem conn3_distrib (p : Bool) (a b c : B3) : conn3 (!p) a (conn3 p b c) = conn3 p (conn3 (!p) a b) (conn3 (!p) a c) := by
+  cases p
+  · exact and3_or3_distrib a b c
+  · exact or3_and3_distrib a b c
+theorem conn3_distrib_r (p : Bool) (a b c : B3) : conn3 (!p) (conn3 p b c) a = conn3 p (conn3 (!p) b a) (conn3 (!p) c a) := by
+  rw [conn3_comm (!p), conn3_distrib, conn3_comm (!p) a b, conn3_comm (!p) a c]
+
+@[simp] theorem eval_mkConn (env : Env) (p : Bool) (a b : E) :
+    eval env (mkConn p a b) = ofB3 (conn3 p (truth (eval env a)) (truth (eval env b))) := by
+  cases p <;> simp [mkConn, conn3]
+@[simp] theorem eval_rawConn (env : Env) (p : Bool) (a b : E) :
+    eval env (rawConn p a b) = ofB3 (conn3 p (truth (eval env a)) (truth (eval env b))) := by
+  cases p <;> simp [rawConn, conn3, eval]
+
+theorem splitConn_eval (env : Env) (p : Bool) (e a b : E) (h : splitConn p e = some (a, b)) :
+    eval env e = ofB3 (conn3 p (truth (eval env a)) (truth (eval env b))) := by
+  cases e <;> simp [splitConn] at h
+  · obtain ⟨hp, h1, h2⟩ := h; subst hp; subst h1; subst h2; simp [eval, conn3]
+  · obtain ⟨hp, h1, h2⟩ := h; subst hp; subst h1; subst h2; simp [eval, conn3]
+
+theorem eval_flatten1 (env : Env) (e : E) : eval env (flatten1 e) = eval env e := by
+  have fc : ∀ p x, eval env (flattenChild p x) = eval env x := by
+    intro p x; unfold flattenChild; split
+    · rename_i a b h; rw [← h]; simp
+    · rename_i a b h; rw [← h]; simp
+    · rfl
+  cases e <;> simp [flatten1, eval, fc]
+
+theorem distribute_sound (us : E → E) (hus : ∀ e env, eval env (us e) = eval env e) (toAnd : Bool) (a b : E) (env : Env) :
+    eval env (distribute us toAnd a b) = ofB3 (conn3 (!toAnd) (truth (eval env a)) (truth (eval env b))) := by
+  unfold distribute
+  cases hb : splitConn toAnd b with
+  | none => simp
+  | some pb =>
+    obtain ⟨bl, br⟩ := pb
+    have eb := splitConn_eval env toAnd b bl br hb
+    have hf : ∀ c, eval env (mkConn toAnd (us (flatten1 (mkConn (!toAnd) c bl))) (us (flatten1 (mkConn (!toAnd) c br))))
+        = ofB3 (conn3 (!toAnd) (truth (eval env c)) (truth (eval env b))) := by
+      intro c
+      simp only [eval_mkConn, hus, eval_flatten1, truth_ofB3, eb, conn3_distrib]
+    simp only []
+    cases ha : splitConn toAnd a with
+    | none => simp only []; exact hf a
+    | some pa =>
+      obtain ⟨al, ar⟩ := pa
+      have ea := splitConn_eval env toAnd a al ar ha
+      simp only [eval_rawConn, hf, truth_ofB3, ea]
+      rw [conn3_distrib_r]
+
+theorem distTop_sound (us : E → E) (hus : ∀ e env, eval env (us e) = eval env e) (dnf : Bool) (e : E) (env : Env) :
+    eval env (distTop us dnf e) = eval env e := by
+  unfold distTop
+  cases hs : splitConn dnf e with
+  | none => rfl
+  | some p =>
+    obtain ⟨a0, b0⟩ := p
+    have ee := splitConn_eval env dnf e a0 b0 hs
+    simp only []
+    have hd : ∀ x y, eval env x = eval env a0 → eval env y = eval env b0 →
+        eval env (distribute us (!dnf) x y) = eval env e := by
+      intro x y hx hy
+      rw [distribute_sound us hus, ee, hx, hy]; simp
+    have hd' : ∀ x y, eval env x = eval env a0 → eval env y = eval env b0 →
+        eval env (distribute us (!dnf) y x) = eval env e := by
+      intro x y hx hy
+      rw [distribute_sound us hus, ee, hx, hy]; simp [conn3_comm dnf]
+    repeat' split
+    all_goals first | rfl | exact hd _ _ (eval_unnest env a0) (eval_unnest env b0) | exact hd' _ _ (eval_unnest env a0) (eval_unnest env b0)
+
+
+theorem distLaw_all (us : E → E) (hus : ∀ e env, eval env (us e) = eval env e) (dnf : Bool) (env : Env) : ∀ e : E,
+    eval env (distLaw us dnf e) = eval env e ∧
+    (∀ v, evalIn env v (distLawL us dnf e) = evalIn env v e) ∧
+    evalCoalesce env (distLawL us dnf e) = evalCoalesce env e ∧
+    evalCase env (distLawIfs us dnf e) = evalCase env e ∧
+    (∀ c t f, e = .iff c t f → eval env (distLaw us dnf c) = eval env c ∧ eval env (distLaw us dnf t) = eval env t) := by
+  intro e
+  induction e with
+  | and a b iha ihb =>
+    refine ⟨?_, by intro v; simp [distLawL], by simp [distLawL], by simp [distLawIfs], by intro c t f h; cases h⟩
+    simp only [distLaw]; split
+    · rfl
+    · rw [distTop_sound us hus]; simp [eval, iha.1, ihb.1]
+  | or a b iha ihb =>
+    refine ⟨?_, by intro v; simp [distLawL], by simp [distLawL], by simp [distLawIfs], by intro c t f h; cases h⟩
+    simp only [distLaw]; split
+    · rfl
+    · rw [distTop_sound us hus]; simp [eval, iha.1, ihb.1]
+  | cons h t ihh iht =>
+    refine ⟨by simp [distLaw], ?_, ?_, ?_, by intro c t f h; cases h⟩
+    · intro v; simp [distLawL, evalIn, ihh.1, iht.2.1 v]
+    · simp [distLawL, evalCoalesce, ihh.1, iht.2.2.1]
+    · cases h with
+      | iff c t' f =>
+        obtain ⟨hc, ht⟩ := ihh.2.2.2.2 c t' f rfl
+        simp [distLawIfs, evalCase, hc, ht, iht.2.2.2.1]
+      | _ => simp [distLawIfs, evalCase, iht.2.2.2.1]
+  | iff c t f ihc iht ihf =>
+    refine ⟨by simp [distLaw, eval, ihc.1, iht.1, ihf.1], by intro v; simp [distLawL], by simp [distLawL], by simp [distLawIfs], ?_⟩
+    intro c' t' f' h; cases h; exact ⟨ihc.1, iht.1⟩
+  | inList a xs iha ihxs =>
+    exact ⟨by simp [distLaw, eval, iha.1, ihxs.2.1], by intro v; simp [distLawL], by simp [distLawL], by simp [distLawIfs], by intro c t f h; cases h⟩
+  | coalesce xs ihxs =>
+    exact ⟨by simp [distLaw, eval, ihxs.2.2.1], by intro v; simp [distLawL], by simp [distLawL], by simp [distLawIfs], by intro c t f h; cases h⟩
+  | case ifs d ihi ihd =>
+    exact ⟨by simp [distLaw, eval, ihi.2.2.2.1, ihd.1], by intro v; simp [distLawL], by simp [distLawL], by simp [distLawIfs], by intro c t f h; cases h⟩
+  | not a iha =>
+    exact ⟨by simp [distLaw, eval, iha.1], by intro v; simp [distLawL], by simp [distLawL], by simp [distLawIfs], by intro c t f h; cases h⟩
+  | paren a iha =>
+    exact ⟨by simp [distLaw, eval, iha.1], by intro v; simp [distLawL], by simp [distLawL], by simp [distLawIfs], by intro c t f h; cases h⟩
+  | neg a iha =>
+    exact ⟨by simp [distLaw, eval, iha.1], by intro v; simp [distLawL], by simp [distLawL], by simp [distLawIfs], by intro c t f h; cases h⟩
+  | cmp op a b iha ihb =>
+    exact ⟨by simp [distLaw, eval, iha.1, ihb.1], by intro v; simp [distLawL], by simp [distLawL], by simp [distLawIfs], by intro c t f h; cases h⟩
+  | is a b iha _ =>
+    exact ⟨by simp [distLaw, eval, iha.1], by intro v; simp [distLawL], by simp [distLawL], by simp [distLawIfs], by intro c t f h; cases h⟩
+  | add a b iha ihb =>
+    exact ⟨by simp [distLaw, eval, iha.1, ihb.1], by intro v; simp [distLawL], by simp [distLawL], by simp [distLawIfs], by intro c t f h; cases h⟩
+  | sub a b iha ihb =>
+    exact ⟨by simp [distLaw, eval, iha.1, ihb.1], by intro v; simp [distLawL], by simp [distLawL], by simp [distLawIfs], by intro c t f h; cases h⟩
+  | mul a b iha ihb =>
+    exact ⟨by simp [distLaw, eval, iha.1, ihb.1], by intro v; simp [distLawL], by simp [distLawL], by simp [distLawIfs], by intro c t f h; cases h⟩
+  | between a lo hi iha ihl ihh =>
+    exact ⟨by simp [distLaw, eval, iha.1, ihl.1, ihh.1], by intro v; simp [distLawL], by simp [distLawL], by simp [distLawIfs], by intro c t f h; cases h⟩
+  | _ =>
+    exact ⟨by simp [distLaw], by intro v; simp [distLawL], by simp [distLawL], by simp [distLawIfs], by intro c t f h; cases h⟩
+
+
+/-! ### propagate_constants -/
+/-- the environment gives every bound column the value of its constant -/
+def Agree (env : Env) (m : List (E × Int)) : Prop := ∀ c n, (c, n) ∈ m → eval env c = .i n
+
+theorem lookupB_mem (m : List (E × Int)) (c : E) (n : Int) (h : lookupB m c = some n) : (c, n) ∈ m := by
+  induction m with
+  | nil => simp [lookupB] at h
+  | cons p rest ih =>
+    obtain ⟨c', n'⟩ := p
+    simp only [lookupB] at h
+    split at h
+    · rename_i hc; cases h; subst hc; exact List.mem_cons_self ..
+    · exact List.mem_cons_of_mem _ (ih h)
+
+theorem substAll_col (env : Env) (m : List (E × Int)) (hA : Agree env m) (c : E) (hc : isColumn c = true) :
+    eval env (substAll m c) = eval env c := by
+  cases c <;> simp [isColumn] at hc <;> simp only [substAll] <;> split <;>
+    first | rfl | (rename_i n h; rw [hA _ n (lookupB_mem m _ n h)]; rfl)
+
+theorem substAll_all (env : Env) (m : List (E × Int)) (hA : Agree env m) : ∀ e : E,
+    eval env (substAll m e) = eval env e ∧
+    (∀ v, evalIn env v (substAll m e) = evalIn env v e) ∧
+    evalCoalesce env (substAll m e) = evalCoalesce env e ∧
+    evalCase env (substAll m e) = evalCase env e ∧
+    (∀ c t f, e = .iff c t f → eval env (substAll m c) = eval env c ∧ eval env (substAll m t) = eval env t) := by
+  intro e
+  induction e with
+  | bcol k nn =>
+    refine ⟨substAll_col env m hA _ rfl, ?_, ?_, ?_, by intro c t f h; cases h⟩ <;>
+      (try intro v) <;> simp only [substAll] <;> split <;> simp [evalIn, evalCoalesce, evalCase]
+  | icol k nn =>
+    refine ⟨substAll_col env m hA _ rfl, ?_, ?_, ?_, by intro c t f h; cases h⟩ <;>
+      (try intro v) <;> simp only [substAll] <;> split <;> simp [evalIn, evalCoalesce, evalCase]
+  | is a b iha _ =>
+    refine ⟨?_, ?_, ?_, ?_, by intro c t f h; cases h⟩ <;> (try intro v) <;> simp only [substAll] <;> split <;>
+      simp [eval, iha.1, evalIn, evalCoalesce, evalCase]
+  | cons h t ihh iht =>
+    refine ⟨by simp [substAll, eval], ?_, ?_, ?_, by intro c t f h; cases h⟩
+    · intro v; simp [substAll, evalIn, ihh.1, iht.2.1 v]
+    · simp [substAll, evalCoalesce, ihh.1, iht.2.2.1]
+    · cases h with
+      | iff c t' f =>
+        obtain ⟨hc, ht⟩ := ihh.2.2.2.2 c t' f rfl
+        simp [substAll, evalCase, hc, ht, iht.2.2.2.1]
+      | bcol k nn => simp only [substAll]; split <;> simp [evalCase, iht.2.2.2.1]
+      | icol k nn => simp only [substAll]; split <;> simp [evalCase, iht.2.2.2.1]
+      | is a b => simp only [substAll]; split <;> simp [evalCase, iht.2.2.2.1]
+      | _ => simp [substAll, evalCase, iht.2.2.2.1]
+  | iff c t f ihc iht ihf =>
+    refine ⟨by simp [substAll, eval, ihc.1, iht.1, ihf.1], by intro v; simp [substAll, evalIn], by simp [substAll, evalCoalesce], by simp [substAll, evalCase], ?_⟩
+    intro c' t' f' h; cases h; exact ⟨ihc.1, iht.1⟩
+  | and a b iha ihb =>
+    exact ⟨by simp [substAll, eval, iha.1, ihb.1], by intro v; simp [substAll, evalIn], by simp [substAll, evalCoalesce], by simp [substAll, evalCase], by intro c t f h; cases h⟩
+  | or a b iha ihb =>
+    exact ⟨by simp [substAll, eval, iha.1, ihb.1], by intro v; simp [substAll, evalIn], by simp [substAll, evalCoalesce], by simp [substAll, evalCase], by intro c t f h; cases h⟩
+  | not a iha =>
+    exact ⟨by simp [substAll, eval, iha.1], by intro v; simp [substAll, evalIn], by simp [substAll, evalCoalesce], by simp [substAll, evalCase], by intro c t f h; cases h⟩
+  | paren a iha =>
+    exact ⟨by simp [substAll, eval, iha.1], by intro v; simp [substAll, evalIn], by simp [substAll, evalCoalesce], by simp [substAll, evalCase], by intro c t f h; cases h⟩
+  | neg a iha =>
+    exact ⟨by simp [substAll, eval, iha.1], by intro v; simp [substAll, evalIn], by simp [substAll, evalCoalesce], by simp [substAll, evalCase], by intro c t f h; cases h⟩
+  | cmp op a b iha ihb =>
+    exact ⟨by simp [substAll, eval, iha.1, ihb.1], by intro v; simp [substAll, evalIn], by simp [substAll, evalCoalesce], by simp [substAll, evalCase], by intro c t f h; cases h⟩
+  | add a b iha ihb =>
+    exact ⟨by simp [substAll, eval, iha.1, ihb.1], by intro v; simp [substAll, evalIn], by simp [substAll, evalCoalesce], by simp [substAll, evalCase], by intro c t f h; cases h⟩
+  | sub a b iha ihb =>
+    exact ⟨by simp [substAll, eval, iha.1, ihb.1], by intro v; simp [substAll, evalIn], by simp [substAll, evalCoalesce], by simp [substAll, evalCase], by intro c t f h; cases h⟩
+  | mul a b iha ihb =>
+    exact ⟨by simp [substAll, eval, iha.1, ihb.1], by intro v; simp [substAll, evalIn], by simp [substAll, evalCoalesce], by simp [substAll, evalCase], by intro c t f h; cases h⟩
+  | between a lo hi iha ihl ihh =>
+    exact ⟨by simp [substAll, eval, iha.1, ihl.1, ihh.1], by intro v; simp [substAll, evalIn], by simp [substAll, evalCoalesce], by simp [substAll, evalCase], by intro c t f h; cases h⟩
+  | inList a xs iha ihxs =>
+    exact ⟨by simp [substAll, eval, iha.1, ihxs.2.1], by intro v; simp [substAll, evalIn], by simp [substAll, evalCoalesce], by simp [substAll, evalCase], by intro c t f h; cases h⟩
+  | coalesce xs ihxs =>
+    exact ⟨by simp [substAll, eval, ihxs.2.2.1], by intro v; simp [substAll, evalIn], by simp [substAll, evalCoalesce], by simp [substAll, evalCase], by intro c t f h; cases h⟩
+  | case ifs d ihi ihd =>
+    exact ⟨by simp [substAll, eval, ihi.2.2.2.1, ihd.1], by intro v; simp [substAll, evalIn], by simp [substAll, evalCoalesce], by simp [substAll, evalCase], by intro c t f h; cases h⟩
+  | _ =>
+    exact ⟨by simp [substAll], by intro v; simp [substAll], by simp [substAll], by simp [substAll], by intro c t f h; cases h⟩
+
+
+theorem substSpine_sound (env : Env) (m : List (E × Int)) (hA : Agree env m) : ∀ e, eval env (substSpine m e) = eval env e := by
+  intro e
+  induction e with
+  | and a b iha ihb => simp [substSpine, eval, iha, ihb]
+  | paren a iha => simp [substSpine, eval, iha]
+  | cmp op a b _ _ =>
+    cases op <;> cases b <;> simp only [substSpine] <;>
+      first | exact (substAll_all env m hA _).1 | (split <;> first | rfl | exact (substAll_all env m hA _).1)
+  | _ => simp only [substSpine]; exact (substAll_all env m hA _).1
+
+theorem and3_eq_true (x y : B3) (h : and3 x y = some true) : x = some true ∧ y = some true := by
+  rcases x with _ | _ | _ <;> rcases y with _ | _ | _ <;> simp [and3] at h ⊢
+
+def isIcol : E → Bool
+  | .icol _ _ => true
+  | _ => false
+
+theorem eq_true_icol (env : Env) (c : E) (n : Int) (hc : isIcol c = true)
+    (h : truth (eval env (.cmp .eq c (.int n))) = some true) : eval env c = .i n := by
+  cases c <;> simp [isIcol] at hc
+  rename_i k nn
+  simp only [eval] at h ⊢
+  cases hk : env.i k <;> simp [hk] at h ⊢
+  · cases nn <;> simp [cmpVal, toInt?, truth, Cmp.test] at h ⊢ <;> omega
+  · simp [cmpVal, toInt?, truth, Cmp.test] at h; exact h
+
+/-- (B) when the AND is TRUE every `column = literal` conjunct holds -/
+theorem bindings_true (env : Env) : ∀ e, truth (eval env e) = some true →
+    ∀ c n, (c, n) ∈ conjBindings e → isIcol c = true → eval env c = .i n := by
+  intro e
+  induction e with
+  | and a b iha ihb =>
+    intro h c n hm hc
+    simp only [eval, truth_ofB3] at h
+    obtain ⟨h1, h2⟩ := and3_eq_true _ _ h
+    simp only [conjBindings, List.mem_append] at hm
+    rcases hm with hm | hm
+    · exact iha h1 c n hm hc
+    · exact ihb h2 c n hm hc
+  | paren a iha => intro h c n hm hc; exact iha (by simpa [eval] using h) c n (by simpa [conjBindings] using hm) hc
+  | cmp op a b _ _ =>
+    intro h c n hm hc
+    cases op <;> cases b <;> simp [conjBindings] at hm
+    obtain ⟨_, h1, h2⟩ := hm; subst h1; subst h2
+    exact eq_true_icol env c n hc h
+  | _ => intro h c n hm; simp [conjBindings] at hm
+
+/-- (C) the defining conjuncts survive the substitution -/
+theorem conjBindings_subset (m : List (E × Int)) : ∀ e p, p ∈ conjBindings e → p ∈ conjBindings (substSpine m e) := by
+  intro e
+  induction e with
+  | and a b iha ihb =>
+    intro p hp
+    simp only [conjBindings, substSpine, List.mem_append] at hp ⊢
+    rcases hp with hp | hp
+    · exact Or.inl (iha p hp)
+    · exact Or.inr (ihb p hp)
+  | paren a iha => intro p hp; simpa [conjBindings, substSpine] using iha p (by simpa [conjBindings] using hp)
+  | cmp op a b _ _ =>
+    intro p hp
+    cases op <;> cases b <;> simp [conjBindings] at hp
+    obtain ⟨hc, hp⟩ := hp
+    simp [substSpine, hc, conjBindings, hp]
+  | _ => intro p hp; simp [conjBindings] at hp
+
+theorem and3_false_l (x y : B3) (h : x = some false) : and3 x y = some false := by subst h; rfl
+theorem and3_false_r (x y : B3) (h : y = some false) : and3 x y = some false := by subst h; exact and3_false x
+
+/-- (D) a false `column = literal` conjunct makes the AND false -/
+theorem binding_false (env : Env) : ∀ e c n, (c, n) ∈ conjBindings e →
+    truth (eval env (.cmp .eq c (.int n))) = some false → truth (eval env e) = some false := by
+  intro e
+  induction e with
+  | and a b iha ihb =>
+    intro c n hm h
+    simp only [conjBindings, List.mem_append] at hm
+    simp only [eval, truth_ofB3]
+    rcases hm with hm | hm
+    · exact and3_false_l _ _ (iha c n hm h)
+    · exact and3_false_r _ _ (ihb c n hm h)
+  | paren a iha => intro c n hm h; simpa [eval] using iha c n (by simpa [conjBindings] using hm) h
+  | cmp op a b _ _ =>
+    intro c n hm h
+    cases op <;> cases b <;> simp [conjBindings] at hm
+    obtain ⟨_, h1, h2⟩ := hm; subst h1; subst h2; exact h
+  | _ => intro c n hm; simp [conjBindings] at hm
+
+
+theorem icol_val (env : Env) (c : E) (hc : isIcol c = true) (hn : eval env c ≠ .null) : ∃ v, eval env c = .i v := by
+  cases c <;> simp [isIcol] at hc
+  rename_i k nn
+  simp only [eval] at hn ⊢
+  cases hk : env.i k with
+  | some v => exact ⟨v, rfl⟩
+  | none => cases nn <;> simp [hk] at hn ⊢
+
+/-- WHERE-equivalence of the substitution along the spine -/
+theorem substSpine_where (env : Env) (e : E) (hI : ∀ c n, (c, n) ∈ conjBindings e → isIcol c = true) :
+    (truth (eval env (substSpine (conjBindings e) e)) = some true ↔ truth (eval env e) = some true) := by
+  constructor
+  · intro h
+    have hA : Agree env (conjBindings e) := fun c n hm =>
+      bindings_true env _ h c n (conjBindings_subset (conjBindings e) e _ hm) (hI c n hm)
+    rwa [substSpine_sound env _ hA] at h
+  · intro h
+    have hA : Agree env (conjBindings e) := fun c n hm => bindings_true env e h c n hm (hI c n hm)
+    rwa [substSpine_sound env _ hA]
+
+/-- value equality when no bound column is NULL -/
+theorem substSpine_nonnull (env : Env) (a b : E) (hI : ∀ c n, (c, n) ∈ conjBindings (.and a b) → isIcol c = true)
+    (hnn : ∀ c n, (c, n) ∈ conjBindings (.and a b) → eval env c ≠ .null) :
+    eval env (substSpine (conjBindings (.and a b)) (.and a b)) = eval env (.and a b) := by
+  by_cases hA : Agree env (conjBindings (.and a b))
+  · exact substSpine_sound env _ hA _
+  · unfold Agree at hA
+    obtain ⟨c, hA⟩ := Classical.not_forall.mp hA
+    obtain ⟨n, hA⟩ := Classical.not_forall.mp hA
+    obtain ⟨hm, hne⟩ := Classical.not_imp.mp hA
+    obtain ⟨v, hv⟩ := icol_val env c (hI c n hm) (hnn c n hm)
+    have hvn : v ≠ n := by intro h; subst h; exact hne hv
+    have hf : truth (eval env (.cmp .eq c (.int n))) = some false := by
+      simp [eval, hv, cmpVal, toInt?, truth, Cmp.test, hvn]
+    have h1 := binding_false env (.and a b) c n hm hf
+    have h2 := binding_false env (substSpine (conjBindings (.and a b)) (.and a b)) c n (conjBindings_subset _ _ _ hm) hf
+    have b1 := boolish_val env (.and a b) rfl
+    have b2 := boolish_val env (substSpine (conjBindings (.and a b)) (.and a b)) rfl
+    rw [← b1, ← b2, h1, h2]
+
+
+/-! ### uniq_sort / remove_complements: folds over operand sets -/
+def all3 (l : List B3) : B3 := l.foldr and3 (some true)
+def any3 (l : List B3) : B3 := l.foldr or3 (some false)
+
+theorem all3_char (l : List B3) :
+    all3 l = if some false ∈ l then some false else if none ∈ l then none else some true := by
+  induction l with
+  | nil => simp [all3]
+  | cons x xs ih =>
+    have : all3 (x :: xs) = and3 x (all3 xs) := rfl
+    rw [this, ih]
+    rcases x with _ | _ | _ <;> by_cases h1 : some false ∈ xs <;> by_cases h2 : none ∈ xs <;> simp [h1, h2, and3]
+
+theorem any3_char (l : List B3) :
+    any3 l = if some true ∈ l then some true else if none ∈ l then none else some false := by
+  induction l with
+  | nil => simp [any3]
+  | cons x xs ih =>
+    have : any3 (x :: xs) = or3 x (any3 xs) := rfl
+    rw [this, ih]
+    rcases x with _ | _ | _ <;> by_cases h1 : some true ∈ xs <;> by_cases h2 : none ∈ xs <;> simp [h1, h2, or3]
+
+theorem all3_congr (l1 l2 : List B3) (h : ∀ v, v ∈ l1 ↔ v ∈ l2) : all3 l1 = all3 l2 := by
+  rw [all3_char, all3_char]; simp only [h]
+theorem any3_congr (l1 l2 : List B3) (h : ∀ v, v ∈ l1 ↔ v ∈ l2) : any3 l1 = any3 l2 := by
+  rw [any3_char, any3_char]; simp only [h]
+
+theorem foldSem_and_eq (sem : E → B3) (xs : List E) : foldSem and3 (some true) sem xs = all3 (xs.map sem) := by
+  induction xs with
+  | nil => rfl
+  | cons x xs ih =>
+    have : foldSem and3 (some true) sem (x :: xs) = and3 (sem x) (foldSem and3 (some true) sem xs) := rfl
+    rw [this, ih]; rfl
+theorem foldSem_or_eq (sem : E → B3) (xs : List E) : foldSem or3 (some false) sem xs = any3 (xs.map sem) := by
+  induction xs with
+  | nil => rfl
+  | cons x xs ih =>
+    have : foldSem or3 (some false) sem (x :: xs) = or3 (sem x) (foldSem or3 (some false) sem xs) := rfl
+    rw [this, ih]; rfl
+
+theorem sameSet_mem (xs ys : List E) (h : sameSet xs ys = true) (sem : E → B3) :
+    ∀ v, v ∈ xs.map sem ↔ v ∈ ys.map sem := by
+  simp only [sameSet, Bool.and_eq_true, List.all_eq_true, List.contains_iff_mem] at h
+  intro v
+  simp only [List.mem_map]
+  constructor
+  · rintro ⟨x, hx, rfl⟩; exact ⟨x, h.1 x hx, rfl⟩
+  · rintro ⟨y, hy, rfl⟩; exact ⟨y, h.2 y hy, rfl⟩
+
+/-- polarity-generic 3-valued fold -/
+def opK (k : FK) : B3 → B3 → B3 := match k with | .and => and3 | _ => or3
+def unitK (k : FK) : B3 := match k with | .and => some true | _ => some false
+
+theorem foldSem_sameSet (k : FK) (hk : k = .and ∨ k = .or) (sem : E → B3) (xs ys : List E) (h : sameSet xs ys = true) :
+    foldSem (opK k) (unitK k) sem xs = foldSem (opK k) (unitK k) sem ys := by
+  rcases hk with rfl | rfl
+  · show foldSem and3 (some true) sem xs = foldSem and3 (some true) sem ys
+    rw [foldSem_and_eq, foldSem_and_eq]; exact all3_congr _ _ (sameSet_mem xs ys h sem)
+  · show foldSem or3 (some false) sem xs = foldSem or3 (some false) sem ys
+    rw [foldSem_or_eq, foldSem_or_eq]; exact any3_congr _ _ (sameSet_mem xs ys h sem)
+
+theorem opK_assoc (k : FK) (hk : k = .and ∨ k = .or) (a b c : B3) : opK k (opK k a b) c = opK k a (opK k b c) := by
+  rcases hk with rfl | rfl
+  · exact and3_assoc a b c
+  · exact or3_assoc a b c
+theorem opK_comm (k : FK) (hk : k = .and ∨ k = .or) (a b : B3) : opK k a b = opK k b a := by
+  rcases hk with rfl | rfl
+  · exact and3_comm a b
+  · exact or3_comm a b
+theorem opK_unit (k : FK) (hk : k = .and ∨ k = .or) (a : B3) : opK k (unitK k) a = a := by
+  rcases hk with rfl | rfl
+  · exact true_and3 a
+  · exact false_or3 a
+
+theorem connKind_conn (e : E) (k : FK) (h : connKind e = some k) : k = .and ∨ k = .or := by
+  cases e <;> simp [connKind] at h <;> simp [← h]
+
+theorem mk_sem (env : Env) (k : FK) (hk : k = .and ∨ k = .or) (a b : E) :
+    truth (eval env (k.mk a b)) = opK k (truth (eval env a)) (truth (eval env b)) := by
+  rcases hk with rfl | rfl <;> simp [FK.mk, eval, opK]
+
+/-- the chain of a connector evaluates to the fold of its (unnested) operands -/
+theorem flattenU_sound (env : Env) (e : E) (k : FK) (h : connKind e = some k) :
+    foldSem (opK k) (unitK k) (fun x => truth (eval env x)) (flattenU k e) = truth (eval env e) := by
+  have hk := connKind_conn e k h
+  have key : ∀ e', foldSem (opK k) (unitK k) (fun x => truth (eval env x)) (flattenU k e') = truth (eval env e') := by
+    intro e'
+    induction e' with
+    | and a b iha ihb =>
+      rcases hk with rfl | rfl
+      · simp only [flattenU]
+        rw [foldSem_append _ _ _ (opK_assoc .and (Or.inl rfl)) (opK_unit .and (Or.inl rfl)), iha, ihb]
+        simp [eval, opK]
+      · simp only [flattenU, unnest]
+        exact foldSem_single _ _ _ (opK_assoc .or (Or.inr rfl)) (opK_comm .or (Or.inr rfl)) (opK_unit .or (Or.inr rfl)) _
+    | or a b iha ihb =>
+      rcases hk with rfl | rfl
+      · simp only [flattenU, unnest]
+        exact foldSem_single _ _ _ (opK_assoc .and (Or.inl rfl)) (opK_comm .and (Or.inl rfl)) (opK_unit .and (Or.inl rfl)) _
+      · simp only [flattenU]
+        rw [foldSem_append _ _ _ (opK_assoc .or (Or.inr rfl)) (opK_unit .or (Or.inr rfl)), iha, ihb]
+        simp [eval, opK]
+    | _ =>
+      rcases hk with rfl | rfl <;> simp only [flattenU] <;>
+        (rw [foldSem_single _ _ _ (opK_assoc _ (by simp)) (opK_comm _ (by simp)) (opK_unit _ (by simp))]; simp)
+  exact key e
+
+theorem mkChain_sound (env : Env) (k : FK) (hk : k = .and ∨ k = .or) (xs : List E) :
+    truth (eval env (mkChain k xs)) = foldSem (opK k) (unitK k) (fun x => truth (eval env x)) xs := by
+  have A := opK_assoc k hk; have C := opK_comm k hk; have U := opK_unit k hk
+  cases xs with
+  | nil => rcases hk with rfl | rfl <;> rfl
+  | cons x rest =>
+    cases rest with
+    | nil => simp only [mkChain]; exact (foldSem_single (opK k) (unitK k) (fun x => truth (eval env x)) A C U x).symm
+    | cons y ys =>
+      simp only [mkChain]
+      have hmk : ∀ a b, (fun x => truth (eval env x)) ((fun acc y => k.mk acc (wrapConn y)) a b)
+          = opK k ((fun x => truth (eval env x)) a) ((fun x => truth (eval env x)) b) := by
+        intro a b; simp only []; rw [mk_sem env k hk]; simp
+      have := reduce_sound (opK k) (unitK k) (fun x => truth (eval env x)) A C U _ hmk (y :: ys) (wrapConn x)
+      rw [this]; simp only [eval_wrapConn]; rfl
+
+/-- uniq_sort: any duplicate-free rearrangement of the operands of an AND / OR chain keeps the 3-valued truth value -/
+theorem uniqSortWith_sound (order : List E) (gate : Bool) (e : E) (env : Env) :
+    truth (eval env (uniqSortWith order gate e)) = truth (eval env e) := by
+  unfold uniqSortWith
+  cases hk : connKind e with
+  | none => rfl
+  | some k =>
+    have hkk := connKind_conn e k hk
+    simp only []
+    split; · rfl
+    split; · rfl
+    split; · rfl
+    rename_i hs
+    simp only [Bool.not_eq_true, Bool.not_eq_false'] at hs
+    have hss : sameSet order (flattenU k e) = true := by
+      cases h : sameSet order (flattenU k e) <;> simp_all
+    have hf := foldSem_sameSet k hkk (fun x => truth (eval env x)) order (flattenU k e) hss
+    rw [flattenU_sound env e k hk] at hf
+    split
+    · rename_i x0 _
+      rw [← hf]
+      have e1 : truth (eval env (mkAnd x0 (.bool true))) = truth (eval env x0) := by
+        rw [eval_mkAnd, truth_ofB3]; show and3 _ (some true) = _; exact and3_true _
+      rw [e1]
+      exact (foldSem_single (opK k) (unitK k) (fun x => truth (eval env x)) (opK_assoc k hkk) (opK_comm k hkk) (opK_unit k hkk) x0).symm
+    · rw [mkChain_sound env k hkk, hf]
+
+theorem mem_false_all3 (l : List B3) (h : some false ∈ l) : all3 l = some false := by
+  rw [all3_char]; simp [h]
+theorem mem_true_any3 (l : List B3) (h : some true ∈ l) : any3 l = some true := by
+  rw [any3_char]; simp [h]
+
+theorem nonNullE_unnest (e : E) : nonNullE (unnest e) = nonNullE e := by
+  induction e <;> simp_all [unnest, nonNullE]
+
+theorem nonNullE_flattenU (k : FK) (e : E) (h : nonNullE e = true) : ∀ x ∈ flattenU k e, nonNullE x = true := by
+  induction e with
+  | and a b iha ihb =>
+    simp only [nonNullE, Bool.and_eq_true] at h
+    cases k <;> simp only [flattenU, List.mem_append, List.mem_singleton, unnest]
+    · rintro x (hx | hx); exact iha h.1 x hx; exact ihb h.2 x hx
+    all_goals (intro x hx; subst hx; simp [nonNullE, h.1, h.2])
+  | or a b iha ihb =>
+    simp only [nonNullE, Bool.and_eq_true] at h
+    cases k <;> simp only [flattenU, List.mem_append, List.mem_singleton, unnest]
+    · intro x hx; subst hx; simp [nonNullE, h.1, h.2]
+    · rintro x (hx | hx); exact iha h.1 x hx; exact ihb h.2 x hx
+    all_goals (intro x hx; subst hx; simp [nonNullE, h.1, h.2])
+  | _ =>
+    cases k <;> simp only [flattenU, List.mem_singleton] <;> (intro x hx; subst hx; rw [nonNullE_unnest]; exact h)
+
+/-- remove_complements: `A AND NOT A … → FALSE` / `A OR NOT A … → TRUE` is exact when no operand can be NULL
+    (what the `nonnull` meta of the connector asserts) -/
+theorem removeComplements_sound (gate nonnull : Bool) (e : E) (hn : nonnull = true → nonNullE e = true) (env : Env) :
+    eval env (removeComplements gate nonnull e) = eval env e := by
+  unfold removeComplements
+  cases hk : connKind e with
+  | none => rfl
+  | some k =>
+    have hkk := connKind_conn e k hk
+    simp only []
+    split; · rfl
+    split
+    · rename_i hc
+      simp only [Bool.and_eq_true, List.any_eq_true] at hc
+      obtain ⟨hnn, op, hop, hmatch⟩ := hc
+      have hne := hn hnn
+      cases op with
+      | not x =>
+        simp only [List.contains_iff_mem] at hmatch
+        have hx := nonNullE_flattenU k e hne x hmatch
+        obtain ⟨t, ht⟩ := truth_of_ne_null _ (nonNullE_ne_null env x hx)
+        have hfold := flattenU_sound env e k hk
+        have hbool : ofB3 (truth (eval env e)) = eval env e := by
+          cases e <;> simp [connKind] at hk <;> simp [eval]
+        rw [← hbool, ← hfold]
+        rcases hkk with rfl | rfl
+        · show _ = ofB3 (foldSem and3 (some true) _ _)
+          rw [foldSem_and_eq, mem_false_all3]
+          · rfl
+          · cases t
+            · exact List.mem_map.mpr ⟨x, hmatch, ht⟩
+            · exact List.mem_map.mpr ⟨.not x, hop, by simp [eval, ht, not3]⟩
+        · show _ = ofB3 (foldSem or3 (some false) _ _)
+          rw [foldSem_or_eq, mem_true_any3]
+          · rfl
+          · cases t
+            · exact List.mem_map.mpr ⟨.not x, hop, by simp [eval, ht, not3]⟩
+            · exact List.mem_map.mpr ⟨x, hmatch, ht⟩
+      | _ => simp at hmatch
+    · rfl
 
 end SqlglotModel.Simplify
